@@ -1056,6 +1056,39 @@ func gen(rt *rapid.T) Case {
 		c.Forms = append(forms, c.Forms[at:]...)
 		final.Define(nd)
 		c.Mid = rapid.Bool().Draw(rt, "mid")
+		if at == len(forms)-1+0 && len(c.Forms) == at+1 && rapid.Bool().Draw(rt, "redefine-twice") {
+			// a second redefinition right after the first (no other definition in between): mostly of a superclass
+			// of the class redefined first, with a slot added or an initform changed (the superclasses stay)
+			second := rapid.SampledFrom(names).Draw(rt, "redef2-class")
+			if sups := final.Precedence(nd.C); len(sups) > 1 && rapid.IntRange(0, 3).Draw(rt, "redef2-super") > 0 {
+				second = sups[rapid.IntRange(1, len(sups)-1).Draw(rt, "redef2-which")]
+			}
+			if final.Defined(second) {
+				old := final.Def(second)
+				nd2 := refclos.Def{C: second, Sup: append([]string{}, old.Sup...)}
+				for _, sl := range old.Slots {
+					sl.IA = append([]string{}, sl.IA...)
+					nd2.Slots = append(nd2.Slots, sl)
+				}
+				if len(nd2.Slots) > 0 && rapid.Bool().Draw(rt, "redef2-initform") {
+					i := rapid.IntRange(0, len(nd2.Slots)-1).Draw(rt, "redef2-slot")
+					nd2.Slots[i].IF = 700 + i
+				} else {
+					for _, sn := range slotPool {
+						has := false
+						for _, x := range nd2.Slots {
+							has = has || x.N == sn
+						}
+						if !has {
+							nd2.Slots = append(nd2.Slots, refclos.Slot{N: sn, IF: 710, IA: subset(rt, "redef2-initargs", argPool, 2)})
+							break
+						}
+					}
+				}
+				c.Forms = append(c.Forms, nd2)
+				final.Define(nd2)
+			}
+		}
 	}
 	// the add-super change was checked against the first definitions only; every prefix must be acyclic
 	if !prefixesAcyclic(c.Forms) {
